@@ -150,6 +150,20 @@ PROPS = {
         assumptions=["CPU time, allocator and GC are measured, not modelled; library parsers (net/http, x/net/http2) assumed linear"],
         impl_timeout=120,
     ),
+    "C03": dict(
+        proof_modules=["KsVerif.Proofs.C03"],
+        families=["http.conv"],
+        rule="http.conv: HTTP/1.0 and 1.1 conversations of 1-4 pipelined exchanges from an independent encoder (cross-checked "
+             "byte for byte against the Lean spec encoder): six methods, origin- and absolute-form targets with repeated "
+             "query keys and percent-encoding, 0-4 header fields incl. values with quotes / backslashes / 300 bytes, "
+             "fixed-length, chunked (7-byte chunks) and close-delimited bodies of 0 bytes to above 8 KiB (across the "
+             "4096 / 8192 buffers), binary bodies, seven status codes, HEAD exchanges; each item is observed in its "
+             "reported (HAR) form; non-trivial = at least one exchange",
+        trusted_base=["Http/H1.lean Wire: model of net/http ReadRequest / ReadResponse + ReadAll for the generated grammar "
+                      "(library behaviour, validated by correspondence only); martian/har conversion observed, not modelled; "
+                      "framing headers (Host, Content-Length, Transfer-Encoding) are rebuilt by the libraries and not compared"] + LIB,
+        assumptions=["header names compare in canonical MIME spelling; order among header fields is not part of the report"],
+    ),
     "C05": dict(
         proof_modules=["KsVerif.Proofs.C05"],
         families=["amqp.conv"],
